@@ -153,7 +153,15 @@ Base3 == [opts |-> O("false", "u32"), xopts |-> <<<<"ArrayPrefixLenType", "u8">>
                                      !.pairs = <<Pair("\"AB\"", <<65, 66>>, "A"), Pair("\"C\"", <<67>>, "PSub2")>>],
                           [F0 EXCEPT !.k = "ck", !.name = "Ck", !.ty = "u16", !.alg = "VSUM16"]>>],
                       PA, [PSub EXCEPT !.name = "PSub2"] >>]
-Bases == <<Base1, Base2, Base3>>
+\* two match fields over the same key field (the second one last), a repeated object, an inline object
+Base4 == [opts |-> O("", ""), xopts |-> <<>>, metas |-> <<>>,
+          pkts |-> << [name |-> "Frame", root |-> TRUE, fields |->
+                        <<Sc("T", "u16"),
+                          [F0 EXCEPT !.k = "match", !.name = "Body", !.key = "T", !.pairs = <<Pair("1", <<0, 1>>, "A"), Pair("2", <<0, 2>>, "B")>>],
+                          [F0 EXCEPT !.k = "inl", !.name = "Inner", !.fs = <<Sc("p", "u8")>>],
+                          [F0 EXCEPT !.k = "match", !.name = "Trailer", !.key = "T", !.pairs = <<Pair("1", <<0, 1>>, "B"), Pair("3", <<0, 3>>, "A")>>]>>],
+                      PA, PB >>]
+Bases == <<Base1, Base2, Base3, Base4>>
 
 (* ------------------------------- faults --------------------------------- *)
 AppendField(p, j, f) == [p EXCEPT !.pkts[j].fields = Append(@, f)]
@@ -171,7 +179,7 @@ Faults(p) ==
 \cup { [class |-> "dupOption", prog |-> [p EXCEPT !.xopts = Append(@, <<StdOpts(p)[h], IF h <= 3 THEN "\"x\"" ELSE IF StdOpts(p)[h] = "LittleEndian" THEN "true" ELSE "u16">>)]] :
          h \in {h \in 1..Len(StdOpts(p)) : StdOpts(p)[h] \in {"GoPackage", "LittleEndian", "StringPrefixLenType"}} }
 \cup UNION { { [class |-> "dupField", prog |-> AppendField(p, j, p.pkts[j].fields[i])] :
-                  i \in {i \in 1..Len(p.pkts[j].fields) : p.pkts[j].fields[i].k \in {"int", "dyn", "obj", "meta"}} }
+                  i \in {i \in 1..Len(p.pkts[j].fields) : p.pkts[j].fields[i].k \in {"int", "dyn", "obj", "meta", "match", "inl"}} }
              \cup { [class |-> "undeclaredPacket", prog |-> AppendField(p, j, [F0 EXCEPT !.k = "obj", !.name = "ghost", !.ty = "Nope"])] }
              \cup { [class |-> "lenofOutsideRoot", prog |-> AppendField(AppendField(p, j, [F0 EXCEPT !.k = "len", !.name = "xl", !.ty = "u16", !.tgt = "xt"]), j, [F0 EXCEPT !.k = "obj", !.name = "xt", !.ty = "A"])] :
                       x \in IF p.pkts[j].root \/ ~(\E h \in 1..Len(p.pkts) : p.pkts[h].name = "A") THEN {} ELSE {1} }
